@@ -4,7 +4,8 @@
        (histories) and the deterministic instance whose decrement is the median of all counters.
    L2: the reverse-purge hash map as coded: linear probing with drift states, hash_delete back-shift,
        resize, purge = median of the first min(1024, active) active values in slot order,
-       subtract_and_keep_positive_only in the code's two-pass order, golden-ratio stride iterator.
+       subtract_and_keep_positive_only in the code's two-pass order, golden-ratio stride iterator;
+       the serialized image (byte layout) and its reader.
    merge() is that of the REPAIRED code (fixes/12_1_fi_merge_purged_empty.patch): it returns at once only when the operand
    has no active counter AND zero total weight (the unrepaired code tested "no active counter" only and so dropped the
    total weight and offset of a sketch whose counters were all purged; old behaviour + refutation: Regression_fi.v).
@@ -444,75 +445,101 @@ Definition rows_by_item (l : list (cell item)) : list (cell item) :=
 Definition rows_by_est (l : list (cell item)) : list (cell item) :=
   isort (fun a b => if cv _ b <? cv _ a then true else if cv _ a <? cv _ b then false else item_leb (ck _ a) (ck _ b)) l.
 
-Definition step (s : list (Z * full)) (o e : line) : list (Z * full) * outline :=
-  match o with
-  | 1 :: r :: kind :: lgmax :: lgstart :: _ =>                   (* new *)
-      if (lgmax <? lgstart) || negb ((0 <=? kind) && (kind <=? 2)) then (reg_del s r, (refused, []))
-      else (reg_set s r {| f_kind := kind; f_sk := sk_new item (zN lgmax) (zN lgstart); f_log := [] |}, (ok, []))
-  | opc :: r :: w :: x =>
-      if (opc =? 2) || (opc =? 12) then                            (* update (lvalue / rvalue) *)
-        match reg_get s r with
-        | Some f =>
-            if w <? 0 then (s, (refused, [])) else
-            (reg_set s r {| f_kind := f_kind f; f_sk := upd (f_kind f) (f_sk f) x w;
-                            f_log := if w =? 0 then f_log f else log_add (f_log f) x w |}, (ok, []))
-        | None => (s, (refused, []))
-        end
-      else if opc =? 3 then                                         (* query item: 3 r 0 item... *)
-        match reg_get s r with
-        | Some f =>
-            let k := f_sk f in let h := fi_hash (f_kind f) in
-            (s, ([sk_est item item_eqb h k x; sk_lb item item_eqb h k x; sk_ub item item_eqb h k x;
-                  sk_off _ k; sk_tot _ k; nact _ (sk_map _ k)],
-                 [log_get (f_log f) x; log_total (f_log f)]))
-        | None => (s, (refused, []))
-        end
-      else if (opc =? 4) || (opc =? 14) then                       (* merge w into r *)
-        match reg_get s r, reg_get s w with
-        | Some f, Some g =>
-            if negb (f_kind f =? f_kind g) then (s, (refused, [])) else
-            (reg_set s r {| f_kind := f_kind f;
-                            f_sk := sk_merge item item_eqb (fi_hash (f_kind f)) (f_sk f) (f_sk g);
-                            f_log := log_merge (f_log f) (f_log g) |}, (ok, []))
-        | _, _ => (s, (refused, []))
-        end
-      else if opc =? 6 then                                         (* frequent items: 6 r et has_thr thr *)
-        match reg_get s r, x with
-        | Some f, has :: thr :: _ =>
-            let k := f_sk f in
-            let t := if has =? 0 then sk_off _ k else thr in
-            let rows := rows_by_est (sk_rows item (w =? 1) k t) in
-            (s, (nz (length rows) :: sk_off _ k ::
-                   flat_map (fun c => enc_item (ck _ c) ++ [cv _ c + sk_off _ k; cv _ c; cv _ c + sk_off _ k]) rows,
-                 log_total (f_log f) :: flat_map (fun kv => enc_item (fst kv) ++ [snd kv]) (f_log f)))
-        | _, _ => (s, (refused, []))
-        end
-      else if (opc =? 7) || (opc =? 17) then                       (* serialize r, deserialize into w; R = 1, length, bytes *)
-        match reg_get s r with
-        | Some f =>
-            let bs := sk_serialize (f_kind f) (f_sk f) in
-            match sk_deserialize (f_kind f) bs with
-            | Some k' => (reg_set s w {| f_kind := f_kind f; f_sk := k'; f_log := f_log f |}, (1 :: nz (length bs) :: bs, []))
-            | None => (s, (refused, []))
-            end
-        | None => (s, (refused, []))
-        end
-      else if opc =? 8 then                                         (* copy r into w *)
-        match reg_get s r with
-        | Some f => (reg_set s w f, (ok, []))
-        | None => (s, (refused, []))
-        end
-      else (s, ([-2], []))
-  | 5 :: r :: _ =>                                                  (* dump *)
-      match reg_get s r with
-      | Some f =>
-          let k := f_sk f in
-          let rows := rows_by_item (entries item (sk_map _ k)) in
-          (s, (nact _ (sk_map _ k) :: sk_tot _ k :: sk_off _ k :: bz (nact _ (sk_map _ k) =? 0) ::
-                 flat_map (fun c => enc_item (ck _ c) ++ [cv _ c]) rows,
-               [log_total (f_log f)]))
+Definition regs := list (Z * full).
+
+Definition op_new (s : regs) (r kind lgmax lgstart : Z) : regs * outline :=
+  if (lgmax <? lgstart) || negb ((0 <=? kind) && (kind <=? 2)) then (reg_del s r, (refused, []))
+  else (reg_set s r {| f_kind := kind; f_sk := sk_new item (zN lgmax) (zN lgstart); f_log := [] |}, (ok, [])).
+
+Definition op_update (s : regs) (r w : Z) (x : item) : regs * outline :=      (* update (lvalue / rvalue) *)
+  match reg_get s r with
+  | Some f =>
+      if w <? 0 then (s, (refused, [])) else
+      (reg_set s r {| f_kind := f_kind f; f_sk := upd (f_kind f) (f_sk f) x w;
+                      f_log := if w =? 0 then f_log f else log_add (f_log f) x w |}, (ok, []))
+  | None => (s, (refused, []))
+  end.
+
+Definition op_query (s : regs) (r : Z) (x : item) : regs * outline :=         (* 3 r 0 item... *)
+  match reg_get s r with
+  | Some f =>
+      let k := f_sk f in let h := fi_hash (f_kind f) in
+      (s, ([sk_est item item_eqb h k x; sk_lb item item_eqb h k x; sk_ub item item_eqb h k x;
+            sk_off _ k; sk_tot _ k; nact _ (sk_map _ k)],
+           [log_get (f_log f) x; log_total (f_log f)]))
+  | None => (s, (refused, []))
+  end.
+
+Definition op_merge (s : regs) (r w : Z) : regs * outline :=                  (* merge w into r *)
+  match reg_get s r, reg_get s w with
+  | Some f, Some g =>
+      if negb (f_kind f =? f_kind g) then (s, (refused, [])) else
+      (reg_set s r {| f_kind := f_kind f;
+                      f_sk := sk_merge item item_eqb (fi_hash (f_kind f)) (f_sk f) (f_sk g);
+                      f_log := log_merge (f_log f) (f_log g) |}, (ok, []))
+  | _, _ => (s, (refused, []))
+  end.
+
+Definition op_freq (s : regs) (r et : Z) (x : line) : regs * outline :=       (* 6 r et has_thr thr *)
+  match reg_get s r, x with
+  | Some f, has :: thr :: _ =>
+      let k := f_sk f in
+      let t := if has =? 0 then sk_off _ k else thr in
+      let rows := rows_by_est (sk_rows item (et =? 1) k t) in
+      (s, (nz (length rows) :: sk_off _ k ::
+             flat_map (fun c => enc_item (ck _ c) ++ [cv _ c + sk_off _ k; cv _ c; cv _ c + sk_off _ k]) rows,
+           log_total (f_log f) :: flat_map (fun kv => enc_item (fst kv) ++ [snd kv]) (f_log f)))
+  | _, _ => (s, (refused, []))
+  end.
+
+Definition op_roundtrip (s : regs) (r w : Z) : regs * outline :=   (* serialize r, deserialize into w; R = 1, length, bytes *)
+  match reg_get s r with
+  | Some f =>
+      let bs := sk_serialize (f_kind f) (f_sk f) in
+      match sk_deserialize (f_kind f) bs with
+      | Some k' => (reg_set s w {| f_kind := f_kind f; f_sk := k'; f_log := f_log f |}, (1 :: nz (length bs) :: bs, []))
       | None => (s, (refused, []))
       end
+  | None => (s, (refused, []))
+  end.
+
+Definition op_copy (s : regs) (r w : Z) : regs * outline :=
+  match reg_get s r with
+  | Some f => (reg_set s w f, (ok, []))
+  | None => (s, (refused, []))
+  end.
+
+Definition op_dump (s : regs) (r : Z) : regs * outline :=
+  match reg_get s r with
+  | Some f =>
+      let k := f_sk f in
+      let rows := rows_by_item (entries item (sk_map _ k)) in
+      (s, (nact _ (sk_map _ k) :: sk_tot _ k :: sk_off _ k :: bz (nact _ (sk_map _ k) =? 0) ::
+             flat_map (fun c => enc_item (ck _ c) ++ [cv _ c]) rows,
+           [log_total (f_log f)]))
+  | None => (s, (refused, []))
+  end.
+
+Definition step (s : regs) (o e : line) : regs * outline :=
+  match o with
+  | opc :: r :: rest =>
+      if opc =? 1 then
+        match rest with
+        | kind :: lgmax :: lgstart :: _ => op_new s r kind lgmax lgstart
+        | _ => (s, ([-2], []))
+        end
+      else if opc =? 5 then op_dump s r
+      else match rest with
+           | w :: x =>
+               if (opc =? 2) || (opc =? 12) then op_update s r w x
+               else if opc =? 3 then op_query s r x
+               else if (opc =? 4) || (opc =? 14) then op_merge s r w
+               else if opc =? 6 then op_freq s r w x
+               else if (opc =? 7) || (opc =? 17) then op_roundtrip s r w
+               else if opc =? 8 then op_copy s r w
+               else (s, ([-2], []))
+           | [] => (s, ([-2], []))
+           end
   | _ => (s, ([-2], []))
   end.
 
